@@ -181,7 +181,7 @@ def count_only_params(fx, fid):
     fn = fx.fns.get(fid)
     if fn is None or not fn.get("hir"):
         return set()
-    root = hirq.body_root(fn)
+    root = hirq.layout_root(fn)
     params = [(i, p.get("lid"), p.get("name")) for i, p in enumerate(fn["hir"]["params"]) if p.get("k") == "bind"]
     counted = set()
     used_elsewhere = set()
@@ -225,7 +225,7 @@ class ReadRoles:
                 tgt = hirq.strip_wrappers(x["val"])
                 if tgt.get("k") == "path" and tgt.get("res") == "local":
                     self.buf_of[x["id"]] = tgt["lid"]
-        self.root = hirq.body_root(fn)
+        self.root = hirq.layout_root(fn)
         self.lets()
         self.fields()
         self.returned = self.returned_atoms()
@@ -741,7 +741,7 @@ def rep_count_role(fx, it):
 def read_couplings(fx, fn):
     """{ 'some(<field>)': (atom, polarity) } for `let f = if C { Some(..) } else { None }` (also inside tuples)"""
     out = {}
-    root = hirq.body_root(fn)
+    root = hirq.layout_root(fn)
     for n, _ in hirq.walk(root):
         if n.get("k") == "let" and "init" in n and n["pat"].get("k") == "bind":
             init = n["init"]
@@ -836,7 +836,7 @@ class SizeEval:
         self.notes = []
 
     def fn_size(self, fn, self_role="", depth=0):
-        root = hirq.body_root(fn)
+        root = hirq.layout_root(fn)
         env = {}
         return self.block(root, env, self_role, depth)
 
@@ -1105,7 +1105,7 @@ class SizeEval:
                     if p:
                         sub_env[p] = self.ev(a, env, sr, depth)
                 se = SizeEval(self.fx, self.A, self.couplings)
-                root = hirq.body_root(f)
+                root = hirq.layout_root(f)
                 res = se.block(root, sub_env, sr, depth + 1) if root.get("k") == "block" else se.ev(root, sub_env, sr, depth + 1)
                 self.notes.extend(se.notes)
                 return res
